@@ -36,8 +36,12 @@ def gen_pair(rng, thorough):
     pool_kind = rng.random()
     if pool_kind < 0.5:
         kp = gen.INT_KEYS + [None]
-    elif pool_kind < 0.8:
+    elif pool_kind < 0.75:
         kp = gen.SCALAR_KEYS
+    elif pool_kind < 0.85:
+        # numbers of different types that are equal, and ones that are unequal by less than float rounding
+        from decimal import Decimal as _D
+        kp = [0.1, _D('0.1'), _D('2.675'), 2.675, 1, 1.0, _D('1'), None]
     else:
         kp = gen.SMALL_KEYS
     names = list(gen.FIELD_NAMES)
